@@ -44,7 +44,7 @@ def run(chk):
     colls.append(["A" * 300, "C" * 280, "A" * 150 + "C" * 150, ""])
     colls.append([rand_str("AC", 400), rand_str("DE", 400), rand_str("AC", 399)])
     colls.append(["A" * 400, "", "A" * 399 + "C"])
-    weights = [(1, 1, 1), (1, 2, 1), (3, 1, 2), (1, 1, 5), (2, 3, 50), (7, 7, 7), (50, 1, 1), (1, 50, 20)]
+    weights = [(1, 1, 1), (1, 2, 1), (3, 1, 2), (1, 1, 5), (2, 3, 50), (7, 7, 7), (50, 1, 1), (1, 50, 20), (2, 2, 2)]
     ops, checks = [], []
     for xs in colls:
         ys = rng.choice(colls)
